@@ -137,6 +137,12 @@ def run(f, fixture, rep, cfg, tier):
                   "%s can return Ok(()) without replacing the signature header: an earlier signer's signatures survive (key ids, verification)" % n, b.span)
         fallible = [c for c in b.calls() if c.decl == "rpm::signature::traits::Signing::sign" or c.decl.endswith("Header::<T>::write") or c.decl.endswith("SignatureHeaderBuilder::build") or re.search(r"SignatureHeaderBuilder(::<.*>)?::build$", c.decl)]
         early = [w for w in assigns if any(not b.dominates(fc.bb, w) for fc in fallible)] + [c.bb for c in passers if any(not b.dominates(fc.bb, c.bb) for fc in fallible)]
+        # ... and no mutable borrow of a part of the package (e.g. `self.metadata.signature.clear()`) is taken before them
+        for bb in b.reachable():
+            for st in b.stmts(bb):
+                if st["k"] == "assign" and st["rv"]["r"] == "ref" and st["rv"].get("mut") and st["rv"]["p"]["l"] == 1 and [proj_key(p) for p in st["rv"]["p"]["p"] if proj_key(p) != "*"]:
+                    if any(not b.dominates(fc.bb, bb) for fc in fallible):
+                        early.append(bb)
         rep.check(not early, "R2", "%s|all-or-nothing" % n, "%s changes the package only after signing / serialising succeeded" % n,
                   "%s modifies the package (directly or through another mutator) before its fallible steps have succeeded: a failed attempt leaves it changed" % n, b.span)
     # sign delegates
